@@ -328,6 +328,11 @@ pub fn ob_line(w: &World, slot_before_fp: &[(usize, String)], so: &StepOut, op_s
         match w.slots[*s].as_ref() { Some(c) => if &fingerprint(c) != fp { oth = false; }, None => if *s != op_slot { oth = false; } }
     }
     write!(flags, ";oth={}", oth as u8).unwrap();
+    // the cache the operation was called on: is it bit-for-bit what it was? (meaningful for &self operations, also
+    // when the operation unwound from a panic in user code)
+    let same = slot_before_fp.iter().find(|(s, _)| *s == op_slot).map(|(_, fp)| match w.slots[op_slot].as_ref() {
+        Some(c) => &fingerprint(c) == fp, None => false }).unwrap_or(true);
+    write!(flags, ";same={}", same as u8).unwrap();
     let dr: Vec<String> = so.dropped.iter().map(|x| x.to_string()).collect();
     format!("OB {}|{}|{}|{}|{}|{}|{}|{}", so.res, state, dr.join(","), so.hashes, so.visits, st, flags, so.calls)
 }
